@@ -56,6 +56,8 @@ func unitCmd(args []string) {
 	cover := fs.Bool("cover", false, "")
 	timeout := fs.Int("timeout", 10000, "ms per query")
 	dump := fs.Bool("dump", false, "print the script")
+	irc := fs.Bool("irc", false, "wire the ircserver command table (handler template contracts)")
+	quiet := fs.Bool("q", false, "print failing obligations only")
 	fs.Parse(args)
 	start := time.Now()
 	e, err := vc.Load("/repo", "/verif", strings.Split(*pkgs, ",")...)
@@ -64,6 +66,12 @@ func unitCmd(args []string) {
 		os.Exit(2)
 	}
 	fmt.Fprintf(os.Stderr, "loaded in %.1fs\n", time.Since(start).Seconds())
+	if *irc {
+		if err := props.PrepareIRCForUnit(e); err != nil {
+			fmt.Fprintln(os.Stderr, "ENGINE-ERROR", err)
+			os.Exit(2)
+		}
+	}
 	bad := 0
 	for _, name := range fs.Args() {
 		u, err := e.VerifyFunc(name, vc.UnitOpts{NoPanic: *nopanic, Post: *post, Frame: *frame, Cover: *cover})
@@ -80,11 +88,14 @@ func unitCmd(args []string) {
 		t0 := time.Now()
 		u.Discharge(context.Background(), vc.RunOpts{TimeoutMs: *timeout, Seed: 0, Tier: "quick", OutDir: "/verif/out"}, stats, &mu)
 		for _, ob := range u.Obligations() {
+			if *quiet && ob.OK() {
+				continue
+			}
 			fmt.Println(ob.String())
 			if !ob.OK() {
 				bad++
 				fmt.Println("    goal:", ob.Goal)
-				if ob.Model != "" {
+				if ob.Model != "" && !*quiet {
 					m := ob.Model
 					if len(m) > 3000 {
 						m = m[:3000]
@@ -99,7 +110,9 @@ func unitCmd(args []string) {
 		}
 		sort.Strings(as)
 		for _, a := range as {
-			fmt.Println("  assume:", a)
+			if !*quiet {
+				fmt.Println("  assume:", a)
+			}
 		}
 		fmt.Printf("%s: %d obligations in %.1fs\n", name, len(u.Obligations()), time.Since(t0).Seconds())
 	}
